@@ -270,10 +270,10 @@ func TestSequential(t *testing.T) {
 // ---- concurrent readers and closers under delay plans -----------------------------------
 
 type concResult struct {
-	viol         string
-	overlap      bool
-	closeInside  bool
-	fired        int
+	viol        string
+	overlap     bool
+	closeInside bool
+	fired       int
 }
 
 func runConcurrent(impl string, size, readers, reads, closers int, closeDelays []time.Duration, plan []kit.PlanEntry) (res concResult, sites []string, hits map[string]int) {
